@@ -26,49 +26,49 @@ func init() {
 
 // applyExceptions: Apply sites that need no controller guard, one symbol each.
 var applyExceptions = map[string]string{
-	"(*internal/controller/apiextensions/composite.PTComposer).Compose|" + tXRUnstr:                                   "applies the XR itself (self), not a child",
-	"(*internal/controller/apiextensions/composite.APIRevisionFetcher).Fetch|" + xprt + "resource.Composite":           "applies the XR itself (self) to record the revision reference",
-	"(*internal/controller/apiextensions/claim.ClientSideCompositeSyncer).Sync|" + tXRUnstr:                            "XRs are tied to claims by claimRef, not a controller reference: covered by C06's bound-claim gate",
-	"(*internal/controller/pkg/revision.ProviderHooks).Pre|*":                                                          "package runtime objects: not among the placements the property enumerates",
-	"(*internal/controller/pkg/revision.ProviderHooks).Post|*":                                                         "package runtime objects: not among the placements the property enumerates",
-	"(*internal/controller/pkg/revision.FunctionHooks).Pre|*":                                                          "package runtime objects: not among the placements the property enumerates",
-	"(*internal/controller/pkg/revision.FunctionHooks).Post|*":                                                         "package runtime objects: not among the placements the property enumerates",
-	"internal/controller/pkg/revision.applySA|*":                                                                       "package runtime objects: not among the placements the property enumerates",
+	"(*internal/controller/apiextensions/composite.PTComposer).Compose|" + tXRUnstr:                          "applies the XR itself (self), not a child",
+	"(*internal/controller/apiextensions/composite.APIRevisionFetcher).Fetch|" + xprt + "resource.Composite": "applies the XR itself (self) to record the revision reference",
+	"(*internal/controller/apiextensions/claim.ClientSideCompositeSyncer).Sync|" + tXRUnstr:                  "XRs are tied to claims by claimRef, not a controller reference: covered by C06's bound-claim gate",
+	"(*internal/controller/pkg/revision.ProviderHooks).Pre|*":                                                "package runtime objects: not among the placements the property enumerates",
+	"(*internal/controller/pkg/revision.ProviderHooks).Post|*":                                               "package runtime objects: not among the placements the property enumerates",
+	"(*internal/controller/pkg/revision.FunctionHooks).Pre|*":                                                "package runtime objects: not among the placements the property enumerates",
+	"(*internal/controller/pkg/revision.FunctionHooks).Post|*":                                               "package runtime objects: not among the placements the property enumerates",
+	"internal/controller/pkg/revision.applySA|*":                                                             "package runtime objects: not among the placements the property enumerates",
 }
 
 // childKind: static types of objects these controllers write on behalf of an
 // owner (never the reconciled object itself).
 var childKind = map[string]bool{
-	"*k8s.io/api/core/v1.Secret":                       true,
-	"*k8s.io/api/rbac/v1.ClusterRole":                  true,
-	"*k8s.io/api/rbac/v1.ClusterRoleBinding":           true,
-	"*k8s.io/api/rbac/v1.Role":                         true,
-	"*k8s.io/api/rbac/v1.RoleBinding":                  true,
-	"*k8s.io/apiextensions-apiserver/pkg/apis/apiextensions/v1.CustomResourceDefinition": true,
-	"github.com/crossplane/crossplane-runtime/pkg/resource.Composed":                     true,
+	"*k8s.io/api/core/v1.Secret":             true,
+	"*k8s.io/api/rbac/v1.ClusterRole":        true,
+	"*k8s.io/api/rbac/v1.ClusterRoleBinding": true,
+	"*k8s.io/api/rbac/v1.Role":               true,
+	"*k8s.io/api/rbac/v1.RoleBinding":        true,
+	"*k8s.io/apiextensions-apiserver/pkg/apis/apiextensions/v1.CustomResourceDefinition":        true,
+	"github.com/crossplane/crossplane-runtime/pkg/resource.Composed":                            true,
 	"*github.com/crossplane/crossplane-runtime/pkg/resource/unstructured/composed.Unstructured": true,
-	"*k8s.io/apimachinery/pkg/apis/meta/v1/unstructured.Unstructured":                    true,
-	"sigs.k8s.io/controller-runtime/pkg/client.Object":                                   true,
-	"k8s.io/apimachinery/pkg/runtime.Object":                                             true,
+	"*k8s.io/apimachinery/pkg/apis/meta/v1/unstructured.Unstructured":                           true,
+	"sigs.k8s.io/controller-runtime/pkg/client.Object":                                          true,
+	"k8s.io/apimachinery/pkg/runtime.Object":                                                    true,
 }
 
 // rawWriteSites: the raw writes of child kinds confirmed by hand, with the
 // rule that decides their guard.
 var rawWriteSites = map[string]string{
-	"(*internal/controller/apiextensions/composite.DeletingComposedResourceGarbageCollector).GarbageCollectComposedResources|(client.Writer).Update|github.com/crossplane/crossplane-runtime/pkg/resource.Composed": "R2.2 (controller test on the object)",
-	"(*internal/controller/apiextensions/composite.DeletingComposedResourceGarbageCollector).GarbageCollectComposedResources|(client.Writer).Delete|github.com/crossplane/crossplane-runtime/pkg/resource.Composed": "R2.2 (controller test on the object)",
-	"(*internal/controller/apiextensions/composite.GarbageCollectingAssociator).AssociateTemplates|(client.Writer).Update|*github.com/crossplane/crossplane-runtime/pkg/resource/unstructured/composed.Unstructured":  "R2.2 (controller test on the object)",
-	"(*internal/controller/apiextensions/composite.GarbageCollectingAssociator).AssociateTemplates|(client.Writer).Delete|*github.com/crossplane/crossplane-runtime/pkg/resource/unstructured/composed.Unstructured":  "R2.2 (controller test on the object)",
-	"(*internal/controller/apiextensions/composite.FunctionComposer).Compose|(client.Writer).Patch|github.com/crossplane/crossplane-runtime/pkg/resource.Composed":                                                  "R2.7 (server-side apply of an object carrying our controller reference)",
-	"(*internal/controller/apiextensions/definition.Reconciler).Reconcile|(client.Writer).Delete|*k8s.io/apiextensions-apiserver/pkg/apis/apiextensions/v1.CustomResourceDefinition":                                "R2.4 (WasCreated ∧ IsControlledBy)",
-	"(*internal/controller/apiextensions/offered.Reconciler).Reconcile|(client.Writer).Delete|*k8s.io/apiextensions-apiserver/pkg/apis/apiextensions/v1.CustomResourceDefinition":                                   "R2.4 (WasCreated ∧ IsControlledBy)",
-	"(*internal/controller/apiextensions/definition.Reconciler).Reconcile|(client.Writer).DeleteAllOf|*k8s.io/apimachinery/pkg/apis/meta/v1/unstructured.Unstructured":                                              "instances of the XRD's own kind (C08 R8.2), reached only for our CRD (R2.4)",
-	"(*internal/controller/apiextensions/offered.Reconciler).Reconcile|(client.Writer).Delete|*k8s.io/apimachinery/pkg/apis/meta/v1/unstructured.Unstructured":                                                      "claims of the XRD's own kind (C08 R8.3), reached only for our CRD (R2.4)",
-	"(*internal/controller/apiextensions/claim.PatchingManagedFieldsUpgrader).Upgrade|(client.Writer).Patch|sigs.k8s.io/controller-runtime/pkg/client.Object":                                                     "managed-fields upgrade of the claim / its bound XR (C06 R6.4 gates the caller)",
-	"(*internal/controller/apiextensions/composite.PatchingManagedFieldsUpgrader).Upgrade|(client.Writer).Patch|sigs.k8s.io/controller-runtime/pkg/client.Object":                                                 "managed-fields upgrade of the XR itself (self)",
-	"(*internal/controller/pkg/revision.APIEstablisher).create|(client.Writer).Create|sigs.k8s.io/controller-runtime/pkg/client.Object":                                                                            "R2.5 / C16 (create only after a NotFound read; carries our controller reference)",
-	"(*internal/controller/pkg/revision.APIEstablisher).update|(client.Writer).Update|sigs.k8s.io/controller-runtime/pkg/client.Object":                                                                            "R2.5 (AddControllerReference on the snapshot)",
-	"(*internal/controller/pkg/revision.APIEstablisher).ReleaseObjects$1|(client.Writer).Update|*k8s.io/apimachinery/pkg/apis/meta/v1/unstructured.Unstructured":                                                   "C16 R16.4 (only flips our own owner reference to non-controlling)",
+	"(*internal/controller/apiextensions/composite.DeletingComposedResourceGarbageCollector).GarbageCollectComposedResources|(client.Writer).Update|github.com/crossplane/crossplane-runtime/pkg/resource.Composed":  "R2.2 (controller test on the object)",
+	"(*internal/controller/apiextensions/composite.DeletingComposedResourceGarbageCollector).GarbageCollectComposedResources|(client.Writer).Delete|github.com/crossplane/crossplane-runtime/pkg/resource.Composed":  "R2.2 (controller test on the object)",
+	"(*internal/controller/apiextensions/composite.GarbageCollectingAssociator).AssociateTemplates|(client.Writer).Update|*github.com/crossplane/crossplane-runtime/pkg/resource/unstructured/composed.Unstructured": "R2.2 (controller test on the object)",
+	"(*internal/controller/apiextensions/composite.GarbageCollectingAssociator).AssociateTemplates|(client.Writer).Delete|*github.com/crossplane/crossplane-runtime/pkg/resource/unstructured/composed.Unstructured": "R2.2 (controller test on the object)",
+	"(*internal/controller/apiextensions/composite.FunctionComposer).Compose|(client.Writer).Patch|github.com/crossplane/crossplane-runtime/pkg/resource.Composed":                                                   "R2.7 (server-side apply of an object carrying our controller reference)",
+	"(*internal/controller/apiextensions/definition.Reconciler).Reconcile|(client.Writer).Delete|*k8s.io/apiextensions-apiserver/pkg/apis/apiextensions/v1.CustomResourceDefinition":                                 "R2.4 (WasCreated ∧ IsControlledBy)",
+	"(*internal/controller/apiextensions/offered.Reconciler).Reconcile|(client.Writer).Delete|*k8s.io/apiextensions-apiserver/pkg/apis/apiextensions/v1.CustomResourceDefinition":                                    "R2.4 (WasCreated ∧ IsControlledBy)",
+	"(*internal/controller/apiextensions/definition.Reconciler).Reconcile|(client.Writer).DeleteAllOf|*k8s.io/apimachinery/pkg/apis/meta/v1/unstructured.Unstructured":                                               "instances of the XRD's own kind (C08 R8.2), reached only for our CRD (R2.4)",
+	"(*internal/controller/apiextensions/offered.Reconciler).Reconcile|(client.Writer).Delete|*k8s.io/apimachinery/pkg/apis/meta/v1/unstructured.Unstructured":                                                       "claims of the XRD's own kind (C08 R8.3), reached only for our CRD (R2.4)",
+	"(*internal/controller/apiextensions/claim.PatchingManagedFieldsUpgrader).Upgrade|(client.Writer).Patch|sigs.k8s.io/controller-runtime/pkg/client.Object":                                                        "managed-fields upgrade of the claim / its bound XR (C06 R6.4 gates the caller)",
+	"(*internal/controller/apiextensions/composite.PatchingManagedFieldsUpgrader).Upgrade|(client.Writer).Patch|sigs.k8s.io/controller-runtime/pkg/client.Object":                                                    "managed-fields upgrade of the XR itself (self)",
+	"(*internal/controller/pkg/revision.APIEstablisher).create|(client.Writer).Create|sigs.k8s.io/controller-runtime/pkg/client.Object":                                                                              "R2.5 / C16 (create only after a NotFound read; carries our controller reference)",
+	"(*internal/controller/pkg/revision.APIEstablisher).update|(client.Writer).Update|sigs.k8s.io/controller-runtime/pkg/client.Object":                                                                              "R2.5 (AddControllerReference on the snapshot)",
+	"(*internal/controller/pkg/revision.APIEstablisher).ReleaseObjects$1|(client.Writer).Update|*k8s.io/apimachinery/pkg/apis/meta/v1/unstructured.Unstructured":                                                     "C16 R16.4 (only flips our own owner reference to non-controlling)",
 }
 
 var c02pkgs = []string{
